@@ -174,31 +174,38 @@ class CallFrame:
 class ForInIterator:
     """Iterator for for-in loops."""
 
-    def __init__(self, keys: List[str]):
+    def __init__(self, keys: List[str], obj: Optional[JSObject] = None):
         self.keys = keys
+        self.obj = obj
         self.index = 0
 
     def next(self) -> Tuple[Optional[str], bool]:
         """Return (key, done)."""
-        if self.index >= len(self.keys):
-            return None, True
-        key = self.keys[self.index]
-        self.index += 1
-        return key, False
+        while self.index < len(self.keys):
+            key = self.keys[self.index]
+            self.index += 1
+            # A property deleted before it is reached is not visited
+            if self.obj is None or self.obj.has_own(key):
+                return key, False
+        return None, True
 
 
 class ForOfIterator:
     """Iterator for for-of loops."""
 
-    def __init__(self, values: List):
+    def __init__(self, values: Union[List, JSArray]):
         self.values = values
         self.index = 0
 
     def next(self) -> Tuple[Any, bool]:
         """Return (value, done)."""
-        if self.index >= len(self.values):
+        # An array is read as it is now: elements added during the loop are visited
+        values = self.values
+        if isinstance(values, JSArray):
+            values = values._elements
+        if self.index >= len(values):
             return None, True
-        value = self.values[self.index]
+        value = values[self.index]
         self.index += 1
         return value, False
 
@@ -835,7 +842,9 @@ class VM:
                 keys = list(obj._properties)
             else:
                 keys = []
-            self.stack.append(ForInIterator(keys))
+            self.stack.append(
+                ForInIterator(keys, obj if isinstance(obj, JSObject) else None)
+            )
 
         elif op == OpCode.FOR_IN_NEXT:
             iterator = self.stack[-1]
@@ -854,7 +863,7 @@ class VM:
             if iterable is UNDEFINED or iterable is NULL:
                 values = []
             elif isinstance(iterable, JSArray):
-                values = list(iterable._elements)
+                values = iterable
             elif isinstance(iterable, str):
                 # Strings iterate over characters
                 values = list(iterable)
